@@ -458,6 +458,12 @@ func (rtcmHandler *Handler) GetMessage(bitStream []byte) (*Message, error) {
 
 		const timestampPosition = utils.LeaderLengthBits + header.LenMessageType + header.LenStationID
 
+		if len(bitStream)*8 < timestampPosition+header.LenTimeStamp+utils.CRCLengthBits {
+			// The message is too short to contain a timestamp.
+			message.ErrorMessage = "message is too short to contain an MSM timestamp"
+			return message, errors.New(message.ErrorMessage)
+		}
+
 		message.Timestamp =
 			uint(utils.GetBitsAsUint64(bitStream, timestampPosition, header.LenTimeStamp))
 
